@@ -52,9 +52,10 @@ def r1_queries_copy(ctx):
         ctx.check(not ali, LN, q, "a query returns copies, never the stored nodes themselves", detail=ali or None)
     C16.r9_deep_copies(ctx)
     fn = ctx.fn(LN, "NodeList.query")
-    s = norm(fn)
-    n_branches = s.count(".copy()")
-    ctx.floor("copy sites in NodeList.query", n_branches, 3, file=LN)
+    c = ctx.repo.cls(LN, "NodeList")
+    called = {x.func.attr for x in ast.walk(fn) if isinstance(x, ast.Call) and isinstance(x.func, ast.Attribute) and norm(x.func.value) in ("self", "NodeList")}
+    n_branches = norm(fn).count(".copy()") + sum(norm(m).count(".copy()") for name, m in methods(c).items() if name in called and m is not fn)
+    ctx.floor("copy sites reachable from NodeList.query", n_branches, 1, file=LN)
 
 
 def _int_branch_returns_element(fn):
@@ -179,9 +180,17 @@ def r6_rerooting(ctx):
     writes = sorted({t.attr for a in ast.walk(loops[0]) if isinstance(a, ast.Assign) for t in a.targets if isinstance(t, ast.Attribute) and norm(t.value) == v})
     ctx.check(set(writes) <= {"name", "indent", "isource"}, ND + "node_import.py", "ImportNode.parse",
               "re-rooting writes only name, indent and import source of the imported copy (value, type, unit, constraints untouched)", detail=writes)
-    b = [norm(s) for s in loops[0].body]
-    want = ["path = self.name.split(Sign.SEPARATOR + '{')", "path.pop()", "path.append(node.name)", "node.name = Sign.SEPARATOR.join(path)"]
-    ctx.form(b[:4] == want, ND + "node_import.py", "ImportNode.parse", "the directive's own path element is replaced by the imported node's relative name", detail=b[:4])
+    from ..flowexpr import explore
+    ex = explore(fn)
+    its = [v_ for v_ in ex.iterations.values() if v_[0] is loops[0]]
+    names = []
+    if its:
+        lp, start, ips = its[0]
+        tok = v + "@loop1"
+        names = sorted({norm(e.resolved) for q in ips for e in q.events[start:] if e.kind == "store" and e.extra == f"{tok}.name"})
+        want = f"Sign.SEPARATOR.join(self.name.split(Sign.SEPARATOR + '{{')[:-1] + [{tok}.name])"
+    ctx.form(bool(names) and names == [want], ND + "node_import.py", "ImportNode.parse",
+             "the directive's own path element is replaced by the imported node's relative name", detail=names)
     calls = [c for c in ast.walk(fn) if isinstance(c, ast.Call) and norm(c.func) == "env.request"]
     ctx.check(all(not any(k.arg == "count" for k in c.keywords) for c in calls), ND + "node_import.py", "ImportNode.parse",
               "an import accepts any number of selected nodes", detail=[norm(c) for c in calls])
